@@ -295,6 +295,6 @@ SUBS = [
 
 MANIFEST = {
     "technique": "property-based differential testing: subnet_of / in answers compared with exact bit-algebra inclusion on derived address pairs in every spelling",
-    "text": "exploration: equality with exact set inclusion on thousands (quick) / hundreds of thousands (thorough) of plain address pairs across spellings and platforms, implication for grouped addresses, and exact membership for address-group members",
+    "text": "exploration: equality with exact set inclusion on thousands (quick) / hundreds of thousands (thorough) of plain address pairs across spellings and platforms, implication for grouped addresses, exact membership for address-group members, and ask / re-address (line setter or in-place member edits) / ask histories",
     "note": "trusted: lib/refsem.py inclusion algebra; k<=4 non-contiguous bits; group members contiguous (native member syntax); AddrGroup-in-AddrGroup not asserted",
 }
